@@ -9,7 +9,9 @@
 -/
 import ControlModel.Model.Reconcile
 import ControlModel.Model.Resubscribe
+import ControlModel.Model.SparseStatus
 import ControlModel.Gen.C18Facts
+import ControlModel.Gen.TaskIdFacts
 
 namespace Spec.C18
 open Reconcile
@@ -127,7 +129,23 @@ def all (log : List Out) : Bool :=
 def allR (log : List Out) (subs : List Sub) : Bool :=
   all log && identityKept subs && oneFramework subs
 
+/-- Owned tasks are KNOWN as owned: at every quiet point, every task a live environment holds (its roles reference it;
+    the environment is listed and not being torn down) is locked in the roster. "Locked" is what every sweep of unowned
+    tasks reads — Cleanup at the start of every CreateEnvironment, the CleanupTasks RPC, the shutdown path — so a held
+    task that is not locked is a task the next such sweep kills, whatever made it so: in particular a reconciliation
+    answer (or any other status update) that lacks an optional field. One view per quiet point: (task, locked). -/
+def heldLocked (views : List (List (Nat × Bool))) : Bool := views.all (fun v => v.all (·.2))
+
+/-- … together with the views at the quiet points: what `specOnImpl` reports. -/
+def allS (log : List Out) (subs : List Sub) (views : List (List (Nat × Bool))) : Bool :=
+  allR log subs && heldLocked views
+
 /-! ## the configuration the code has NOW (from the regenerated go/ast facts) -/
+
+/-- The nil guards in front of the id copies of updateTaskStatus as the code has them NOW (Gen/TaskIdFacts.lean);
+    `C18_status_id_copy_is_code` proves they are `TaskIds.codeGuards`. The driver runs the monitor with them. -/
+def codeGuards : TaskIds.Guards :=
+  { agent := Gen.TaskIds.agentIdCopy == "guarded", executor := Gen.TaskIds.executorIdCopy == "guarded" }
 
 def stateOfName : String → Option MState
   | "TASK_STAGING" => some .staging | "TASK_STARTING" => some .starting | "TASK_RUNNING" => some .running
